@@ -327,7 +327,9 @@ func (smf *SMFailed) UnmarshalXML(d *xml.Decoder, start xml.StartElement) error 
 				err = d.DecodeElement(&xnwf, &tt)
 				smf.StreamErrorGroup = &xnwf
 			default:
-				return errors.New("error is unknown")
+				// Unknown condition or extension child (XEP-0198 uses stanza error conditions such as
+				// item-not-found here): ignore it rather than failing the whole stream.
+				err = d.Skip()
 			}
 			if err != nil {
 				return err
